@@ -249,6 +249,11 @@ def str_to_int(s, base=10):
 
 def _symx_float(*a, **k):
     if a and _sym(a[0]):
+        if isinstance(a[0], SStr):
+            # float() is C code: the path goes on with one sampled value of the text (a pass then decides nothing)
+            return float(cur().sample_str(a[0], "text handed to float()", prefer="7 1x"), *a[1:], **k)
+        if isinstance(a[0], SInt):
+            return float(a[0].concretize())
         raise Inconclusive("float() of a symbolic value")
     return float(*a, **k)
 
